@@ -9,7 +9,7 @@ RULE = {
            "pre-emption inside a threads.py method; distinct = (scenario, schedule) hash",
 }
 RULE["C11"] = RULE["C10"] + "; C11 profile: stop() calls gated on the completion of other targets so that they race with shutdown blocks"
-RULE["C12"] = RULE["C10"] + "; join timing before/while/after completion, timed joins with fired and unfired tills, join_all_threads"
+RULE["C12"] = RULE["C10"] + "; join timing before/while/after completion, timed joins with fired and unfired tills, join_all_threads; plus batches of 2-5 threads (return / raise / late / outliving the limit) joined by join_all_threads with and without a time limit (monitor only)"
 
 
 class M5(plug.Model):
@@ -28,7 +28,30 @@ class M5(plug.Model):
         return 400
 
 
+class M5B(plug.Model):
+    """join_all_threads on a batch with a time limit (monitor only)"""
+    name = "m5b"
+    mode = "monitor"
+
+    def run(self, sc, chooser, seed):
+        from . import m5_threads
+        return m5_threads.run_batch_scenario(sc, chooser=chooser, seed=seed)
+
+    def shape(self, sc):
+        from . import m5_threads
+        return m5_threads.batch_shape(sc)
+
+    def est_steps(self, sc):
+        return 400
+
+
 MODEL = M5()
+MODELB = M5B()
+
+
+def genb(rng, prop, job):
+    from . import m5_threads
+    return m5_threads.gen_batch(rng)
 
 
 def gen(rng, prop, job):
@@ -37,7 +60,11 @@ def gen(rng, prop, job):
 
 
 def make_jobs(prop, tier, seed):
-    return plug.std_jobs(prop, tier, seed, "m5", n_quick=16, per_quick=6, schedules=4)
+    jobs = plug.std_jobs(prop, tier, seed, "m5", n_quick=16, per_quick=6, schedules=4)
+    if prop == "C12":
+        for j in range(4 if tier == "quick" else 24):
+            jobs.append({"kind": "explore", "side": "batch", "prop": prop, "seed": seed * 15485863 + j, "scenarios": 8, "schedules": 4, "no_driver": True})
+    return jobs
 
 
 def search_jobs(prop, tier, seed, corr_fail):
@@ -45,6 +72,17 @@ def search_jobs(prop, tier, seed, corr_fail):
 
 
 def run_job(job):
+    if job.get("side") == "batch":
+        return plug.std_job(MODELB, genb, job)
+    rp = (job.get("replay") or {}).get("replay") or job.get("replay") or (job.get("failure") or {}).get("replay") or {}
+    if rp.get("model") == "m5b":
+        if job["kind"] == "shrink":
+            return {"failure": job["failure"]}
+        res = plug.run_batch(MODELB, job["prop"], [(rp["scenario"], None, 0, rp["choices"])], use_driver=False)
+        if "infra_error" in res:
+            return res
+        hit = res["mon_fail"]
+        return {"violated": bool(hit), "message": hit[0]["msg"] if hit else "join_all_threads joined and reported every thread"}
     return plug.std_job(MODEL, gen, job)
 
 
